@@ -54,3 +54,915 @@ Proof.
 Qed.
 Lemma find_live {A} (f : A -> Z) (h : list A) i : In i (map f h) -> exists x, find (fun y => f y =? i) h = Some x.
 Proof. intros H. destruct (find (fun y => f y =? i) h) eqn:E; [eauto|]. exfalso. exact (find_none_notin _ _ _ E H). Qed.
+
+(** ---- well-formedness: every reference points to a live object *)
+Definition live_sock (s : state) (k : Z) : Prop := In k (map sk_id (socks s)).
+Definition live_cand (s : state) (c : Z) : Prop := In c (map c_id (cands s)).
+Definition live_pair (s : state) (p : Z) : Prop := In p (map p_id (pairs s)).
+Definition live_refr (s : state) (r : Z) : Prop := In r (map r_id (refrs s)).
+
+(** [ex] exempts one candidate (the one being freed) from the sockptr clause; WF = nothing exempted *)
+Record WFx (ex : option Z) (s : state) : Prop := {
+  wf_nd_socks : NoDup (map sk_id (socks s));
+  wf_nd_cands : NoDup (map c_id (cands s));
+  wf_nd_pairs : NoDup (map p_id (pairs s));
+  wf_nd_refrs : NoDup (map r_id (refrs s));
+  wf_nd_lcands : NoDup (lcands s);
+  wf_nd_rcands : NoDup (rcands s);
+  wf_nd_sources : NoDup (sources s);
+  wf_nd_clist : NoDup (clist s);
+  wf_nd_trig : NoDup (trig s);
+  wf_nd_rlist : NoDup (rlist s);
+  wf_nd_pruning : NoDup (pruning s);
+  wf_base : forall k b, In k (socks s) -> sk_base k = Some b -> live_sock s b;                 (* UdpTurnPriv.base_socket *)
+  wf_cand_sock : forall c k, In c (cands s) -> c_sock c = Some k -> ex <> Some (c_id c) -> live_sock s k;            (* NiceCandidateImpl.sockptr *)
+  wf_pair_refs : forall p, In p (pairs s) -> live_cand s (p_local p) /\ live_cand s (p_remote p) /\ live_sock s (p_sock p);
+  wf_refr_refs : forall r, In r (refrs s) -> live_sock s (r_sock r) /\ live_cand s (r_cand r);
+  wf_lcands : forall c, In c (lcands s) -> live_cand s c;
+  wf_rcands : forall c, In c (rcands s) -> live_cand s c;
+  wf_sources : forall k, In k (sources s) -> live_sock s k;                                   (* SocketSource.socket *)
+  wf_ichecks : forall i, In i (ichecks s) -> live_sock s (i_sock i);                          (* IncomingCheck.local_socket *)
+  wf_sel_l : forall c, sel_l s = Some c -> live_cand s c;
+  wf_sel_r : forall c, sel_r s = Some c -> live_cand s c;
+  wf_turn : forall c, turn_cand s = Some c -> live_cand s c;
+  wf_clist : forall p, In p (clist s) -> live_pair s p;
+  wf_trig : forall p, In p (trig s) -> live_pair s p;
+  wf_discs : forall d, In d (discs s) -> live_sock s (d_sock d);                              (* CandidateDiscovery.nicesock *)
+  wf_rlist : forall r, In r (rlist s) -> live_refr s r;
+  wf_pruning : forall r, In r (pruning s) -> live_refr s r
+}.
+
+Notation WF := (WFx None).
+Arguments wf_nd_socks {ex}.
+Arguments wf_nd_cands {ex}.
+Arguments wf_nd_pairs {ex}.
+Arguments wf_nd_refrs {ex}.
+Arguments wf_nd_lcands {ex}.
+Arguments wf_nd_rcands {ex}.
+Arguments wf_nd_sources {ex}.
+Arguments wf_nd_clist {ex}.
+Arguments wf_nd_trig {ex}.
+Arguments wf_nd_rlist {ex}.
+Arguments wf_nd_pruning {ex}.
+Arguments wf_base {ex}.
+Arguments wf_cand_sock {ex}.
+Arguments wf_pair_refs {ex}.
+Arguments wf_refr_refs {ex}.
+Arguments wf_lcands {ex}.
+Arguments wf_rcands {ex}.
+Arguments wf_sources {ex}.
+Arguments wf_ichecks {ex}.
+Arguments wf_sel_l {ex}.
+Arguments wf_sel_r {ex}.
+Arguments wf_turn {ex}.
+Arguments wf_clist {ex}.
+Arguments wf_trig {ex}.
+Arguments wf_discs {ex}.
+Arguments wf_rlist {ex}.
+Arguments wf_pruning {ex}.
+
+(** ---- frames: which fields an operation may change *)
+Definition updP (s : state) ps tr cl cs fl := set_fault (set_cstate (set_clist (set_trig (set_pairs s ps) tr) cl) cs) fl.
+Definition frameP (s s' : state) : Prop := s' = updP s (pairs s') (trig s') (clist s') (cstate s') (fault s').
+Lemma frameP_refl s : frameP s s. Proof. destruct s; reflexivity. Qed.
+Lemma frameP_trans a b c : frameP a b -> frameP b c -> frameP a c.
+Proof. unfold frameP, updP. destruct a, b, c; cbn. intros H1 H2. injection H1; injection H2; intros; subst; reflexivity. Qed.
+Lemma frameP_fields s s' : frameP s s' ->
+  socks s' = socks s /\ cands s' = cands s /\ refrs s' = refrs s /\ lcands s' = lcands s /\ rcands s' = rcands s /\ sources s' = sources s /\
+  ichecks s' = ichecks s /\ sel_l s' = sel_l s /\ sel_r s' = sel_r s /\ sel_prio s' = sel_prio s /\ turn_cand s' = turn_cand s /\
+  discs s' = discs s /\ rlist s' = rlist s /\ pruning s' = pruning s /\ cid s' = cid s.
+Proof. intros H. rewrite H. cbn. repeat split. Qed.
+
+Lemma flt_frameP s k : frameP s (flt s k).
+Proof. unfold flt. destruct (fault s =? 0); [destruct s; reflexivity|apply frameP_refl]. Qed.
+Lemma free_pair_frameP s p : frameP s (free_pair s p).
+Proof. unfold free_pair. destruct (find_pair (pairs s) p); [destruct s; reflexivity|apply flt_frameP]. Qed.
+Lemma pair_free_frameP s p : frameP s (pair_free s p).
+Proof. unfold pair_free. eapply frameP_trans; [|apply free_pair_frameP]. destruct s; reflexivity. Qed.
+Lemma signal_frameP s n : frameP s (signal_state s n).
+Proof. unfold signal_state. destruct (cstate s =? n); [apply frameP_refl|]. destruct (transition_ok _ _); [destruct s; reflexivity|apply flt_frameP]. Qed.
+
+Lemma pair_free_live s p pr : find_pair (pairs s) p = Some pr ->
+  pairs (pair_free s p) = filter (fun x => negb (p_id x =? p)) (pairs s) /\ trig (pair_free s p) = remove1 p (trig s) /\
+  fault (pair_free s p) = fault s /\ clist (pair_free s p) = clist s /\ cstate (pair_free s p) = cstate s.
+Proof. intros H. unfold pair_free, free_pair. cbn [pairs set_trig]. rewrite H. cbn. repeat split. Qed.
+
+Lemma nodup_id_unique {A} (f : A -> Z) (h : list A) x y : NoDup (map f h) -> In x h -> In y h -> f x = f y -> x = y.
+Proof.
+  induction h as [|a h IH]; cbn; [tauto|]. intros Hn Hx Hy E. inversion Hn as [|? ? Ha Hh]; subst.
+  destruct Hx as [->|Hx], Hy as [->|Hy]; [reflexivity| | |apply IH; assumption].
+  - exfalso. apply Ha. rewrite E. apply in_map. exact Hy.
+  - exfalso. apply Ha. rewrite <- E. apply in_map. exact Hx.
+Qed.
+Lemma nodup_snoc (l : list Z) x : NoDup l -> ~ In x l -> NoDup (l ++ [x]).
+Proof.
+  induction 1 as [|a l Ha Hl IH]; cbn; intros Hx; [constructor; [tauto|constructor]|]. constructor; [|apply IH; tauto].
+  intro H. apply in_app_or in H. destruct H as [H|[<-|[]]]; tauto.
+Qed.
+Lemma set_trig_frameP s v : frameP s (set_trig s v). Proof. destruct s; reflexivity. Qed.
+Lemma set_clist_frameP s v : frameP s (set_clist s v). Proof. destruct s; reflexivity. Qed.
+
+(** ---- the generic loop over the check list *)
+Definition loop_body {A} (step : state -> pair -> A -> action * A) (acc : state * list Z * A) (p : Z) : state * list Z * A :=
+  let '(st, kept, a) := acc in
+  match find_pair (pairs st) p with
+  | None => (flt st 1, kept ++ [p], a)
+  | Some pr =>
+      let '(act, a') := step st pr a in
+      match act with
+      | AFree => (pair_free st p, kept, a')
+      | AKeep => (st, kept ++ [p], a')
+      | AUntrig => (set_trig st (remove1 p (trig st)), kept ++ [p], a')
+      | AFault => (flt st 1, kept ++ [p], a')
+      end
+  end.
+Lemma pair_loop_eq {A} (step : state -> pair -> A -> action * A) l s a0 : pair_loop step l s a0 = fold_left (loop_body step) l (s, [], a0).
+Proof. reflexivity. Qed.
+
+Lemma pair_loop_inv {A} (step : state -> pair -> A -> action * A) (Q R : pair -> Prop) (s0 : state) :
+  (forall st pr a, cands st = cands s0 -> cid st = cid s0 -> In pr (pairs s0) ->
+     fst (step st pr a) <> AFault /\ (fst (step st pr a) <> AFree -> Q pr) /\ (R pr -> fst (step st pr a) <> AFree)) ->
+  forall l st kept a,
+    frameP s0 st -> (forall x, In x (pairs st) -> In x (pairs s0)) ->
+    NoDup l -> (forall i, In i l -> live_pair st i) -> NoDup (map p_id (pairs st)) -> NoDup (trig st) -> fault st = 0 ->
+    NoDup kept -> (forall i, In i kept -> ~ In i l) ->
+    forall s' kept' a', fold_left (loop_body step) l (st, kept, a) = (s', kept', a') ->
+      frameP s0 s' /\ fault s' = 0 /\ clist s' = clist st /\ cstate s' = cstate st /\
+      (forall x, In x (pairs s') -> In x (pairs st)) /\
+      (forall x, In x (pairs st) -> ~ In (p_id x) l -> In x (pairs s')) /\
+      NoDup (map p_id (pairs s')) /\ NoDup (trig s') /\
+      (forall i, In i (trig s') -> In i (trig st)) /\
+      (forall i, In i (trig s') -> live_pair st i -> live_pair s' i) /\
+      NoDup kept' /\
+      (forall i, In i kept' -> In i kept \/ In i l) /\
+      (forall i, In i kept -> In i kept') /\
+      (forall i, In i l -> In i kept' \/ ~ live_pair s' i) /\
+      (forall i, In i l -> In i kept' -> live_pair s' i) /\
+      (forall x, In x (pairs s') -> In (p_id x) l -> Q x) /\
+      (forall x, In x (pairs st) -> R x -> In x (pairs s')).
+Proof.
+  intros Hstep. induction l as [|p l IH]; intros st kept a Hfr Hsub Hnl Hlive Hnp Hnt Hf Hnk Hdis s' kept' a' Hfold.
+  - cbn in Hfold. injection Hfold as <- <- <-. repeat split; auto; try tauto. intros x _ [].
+  - cbn [fold_left] in Hfold. inversion Hnl as [|? ? Hpl Hnl']; subst.
+    assert (Hlp : live_pair st p) by (apply Hlive; left; reflexivity).
+    destruct (find_live p_id (pairs st) p Hlp) as [pr Hfind].
+    destruct (find_some_in p_id _ _ _ Hfind) as [Hpr Hid].
+    destruct (frameP_fields _ _ Hfr) as (_ & Hca & _ & _ & _ & _ & _ & _ & _ & _ & _ & _ & _ & _ & Hci).
+    specialize (Hstep st pr a Hca Hci (Hsub _ Hpr)).
+    unfold loop_body at 2 in Hfold. change (find_pair (pairs st) p) with (find (fun x => p_id x =? p) (pairs st)) in Hfold. rewrite Hfind in Hfold.
+    destruct (step st pr a) as [act a1]. cbn [fst] in Hstep. destruct Hstep as (Hnf & HQ & HR).
+    assert (Hpk : ~ In p kept) by (intro H; apply (Hdis _ H); left; reflexivity).
+    assert (Hnk1 : NoDup (kept ++ [p])) by (apply nodup_snoc; assumption).
+    assert (Hdis1 : forall i, In i (kept ++ [p]) -> ~ In i l).
+    { intros i H. apply in_app_or in H. destruct H as [H|[<-|[]]]; [|exact Hpl]. intro H2. apply (Hdis _ H). right; exact H2. }
+    destruct act.
+    + (* AFree *)
+      destruct (pair_free_live st p pr Hfind) as (Ep & Et & Ef & Ec & Es).
+      assert (Hdead : ~ live_pair (pair_free st p) p).
+      { unfold live_pair. rewrite Ep. intro H. apply in_map_iff in H. destruct H as (x & Hx & Hin). apply filter_In in Hin. destruct Hin as [_ Hin].
+        rewrite Hx, Z.eqb_refl in Hin. discriminate. }
+      specialize (IH (pair_free st p) kept a1).
+      destruct (IH (frameP_trans _ _ _ Hfr (pair_free_frameP st p))) with (s' := s') (kept' := kept') (a' := a')
+        as (I1 & I2 & I3 & I4 & I5 & I6 & I7 & I8 & I9 & I10 & I11 & I12 & I13 & I14 & I15 & I16 & I17); auto.
+      * intros x Hx. rewrite Ep in Hx. apply filter_In in Hx. apply Hsub. tauto.
+      * intros i Hi. assert (Hip : i <> p) by (intros ->; exact (Hpl Hi)).
+        unfold live_pair. rewrite Ep. specialize (Hlive i (or_intror Hi)). unfold live_pair in Hlive. apply in_map_iff in Hlive.
+        destruct Hlive as (x & Hx & Hin). apply in_map_iff. exists x. split; [exact Hx|]. apply filter_In. split; [exact Hin|].
+        rewrite Hx. destruct (i =? p) eqn:E; [apply Z.eqb_eq in E; contradiction|reflexivity].
+      * rewrite Ep. apply nodup_map_filter. exact Hnp.
+      * rewrite Et. apply remove1_nodup. exact Hnt.
+      * congruence.
+      * intros i Hi H. apply (Hdis _ Hi). right; exact H.
+      * assert (Hs5 : forall x, In x (pairs s') -> In x (pairs st)).
+        { intros x Hx. specialize (I5 x Hx). rewrite Ep in I5. apply filter_In in I5. tauto. }
+        repeat split; auto; try congruence.
+        -- intros x Hx Hn. apply I6; [|intro H; apply Hn; right; exact H]. rewrite Ep. apply filter_In. split; [exact Hx|].
+           destruct (p_id x =? p) eqn:E; [apply Z.eqb_eq in E; exfalso; apply Hn; left; symmetry; exact E|reflexivity].
+        -- intros i Hi. specialize (I9 i Hi). rewrite Et in I9. eapply remove1_incl; exact I9.
+        -- intros i Hi Hl. apply I10; [exact Hi|]. specialize (I9 i Hi). rewrite Et in I9.
+           assert (i <> p) by (intros ->; exact (remove1_notin p _ Hnt I9)).
+           unfold live_pair in *. rewrite Ep. apply in_map_iff in Hl. destruct Hl as (x & Hx & Hin). apply in_map_iff. exists x. split; [exact Hx|].
+           apply filter_In. split; [exact Hin|]. rewrite Hx. destruct (i =? p) eqn:E; [apply Z.eqb_eq in E; contradiction|reflexivity].
+        -- intros i Hi. destruct (I12 i Hi); [left; assumption|right; right; assumption].
+        -- intros i [<-|Hi]; [|apply I14; exact Hi]. right. intro H. apply Hdead. unfold live_pair in *. apply in_map_iff in H. destruct H as (x & Hx & Hin).
+           apply in_map_iff. exists x. split; [exact Hx|apply I5; exact Hin].
+        -- intros i [<-|Hi] Hk; [|apply I15; assumption]. exfalso. destruct (I12 _ Hk); [contradiction|contradiction].
+        -- intros x Hx [E|Hi]; [|apply I16; assumption]. exfalso. specialize (I5 x Hx). rewrite Ep in I5. apply filter_In in I5. destruct I5 as [_ I5].
+           rewrite <- E, Z.eqb_refl in I5. discriminate.
+        -- intros x Hx HRx. apply I17; [|exact HRx]. rewrite Ep. apply filter_In. split; [exact Hx|].
+           destruct (p_id x =? p) eqn:E; [|reflexivity]. apply Z.eqb_eq in E. exfalso.
+           assert (x = pr) by (apply (nodup_id_unique p_id (pairs st)); [exact Hnp|exact Hx|exact Hpr|congruence]). subst x. apply (HR HRx). reflexivity.
+    + (* AKeep *)
+      specialize (IH st (kept ++ [p]) a1).
+      destruct (IH Hfr) with (s' := s') (kept' := kept') (a' := a')
+        as (I1 & I2 & I3 & I4 & I5 & I6 & I7 & I8 & I9 & I10 & I11 & I12 & I13 & I14 & I15 & I16 & I17); auto.
+      * intros i Hi. apply Hlive. right; exact Hi.
+      * assert (Hprs : In pr (pairs s')) by (apply I6; [exact Hpr|rewrite Hid; exact Hpl]).
+        repeat split; auto.
+        -- intros x Hx Hn. apply I6; [exact Hx|intro H; apply Hn; right; exact H].
+        -- intros i Hi. destruct (I12 i Hi) as [H|H]; [|right; right; exact H]. apply in_app_or in H. destruct H as [H|[<-|[]]]; [left; exact H|right; left; reflexivity].
+        -- intros i Hi. apply I13. apply in_or_app. left; exact Hi.
+        -- intros i [<-|Hi]; [left; apply I13; apply in_or_app; right; left; reflexivity|apply I14; exact Hi].
+        -- intros i [<-|Hi] Hk; [|apply I15; assumption]. unfold live_pair. rewrite <- Hid. apply in_map. exact Hprs.
+        -- intros x Hx [E|Hi]; [|apply I16; assumption]. assert (x = pr); [|subst x; apply HQ; discriminate].
+           apply (nodup_id_unique p_id (pairs st)); [exact Hnp|apply I5; exact Hx|exact Hpr|congruence].
+    + (* AUntrig *)
+      specialize (IH (set_trig st (remove1 p (trig st))) (kept ++ [p]) a1).
+      destruct (IH (frameP_trans _ _ _ Hfr (set_trig_frameP st _))) with (s' := s') (kept' := kept') (a' := a')
+        as (I1 & I2 & I3 & I4 & I5 & I6 & I7 & I8 & I9 & I10 & I11 & I12 & I13 & I14 & I15 & I16 & I17); auto.
+      * intros i Hi. apply Hlive. right; exact Hi.
+      * cbn. apply remove1_nodup. exact Hnt.
+      * cbn [pairs set_trig] in *. assert (Hprs : In pr (pairs s')) by (apply I6; [exact Hpr|rewrite Hid; exact Hpl]).
+        repeat split; auto.
+        -- intros x Hx Hn. apply I6; [exact Hx|intro H; apply Hn; right; exact H].
+        -- intros i Hi. specialize (I9 i Hi). cbn in I9. eapply remove1_incl; exact I9.
+        -- intros i Hi. destruct (I12 i Hi) as [H|H]; [|right; right; exact H]. apply in_app_or in H. destruct H as [H|[<-|[]]]; [left; exact H|right; left; reflexivity].
+        -- intros i Hi. apply I13. apply in_or_app. left; exact Hi.
+        -- intros i [<-|Hi]; [left; apply I13; apply in_or_app; right; left; reflexivity|apply I14; exact Hi].
+        -- intros i [<-|Hi] Hk; [|apply I15; assumption]. unfold live_pair. rewrite <- Hid. apply in_map. exact Hprs.
+        -- intros x Hx [E|Hi]; [|apply I16; assumption]. assert (x = pr); [|subst x; apply HQ; discriminate].
+           apply (nodup_id_unique p_id (pairs st)); [exact Hnp|apply I5; exact Hx|exact Hpr|congruence].
+    + exfalso. apply Hnf. reflexivity.
+Qed.
+
+(** an operation inside the pair frame keeps WF when what it leaves of pairs / check list / triggered queue is consistent *)
+Lemma WF_frameP {ex} s s' : frameP s s' -> WFx ex s ->
+  NoDup (map p_id (pairs s')) -> NoDup (clist s') -> NoDup (trig s') -> (forall x, In x (pairs s') -> In x (pairs s)) ->
+  (forall p, In p (clist s') -> live_pair s' p) -> (forall p, In p (trig s') -> live_pair s' p) -> WFx ex s'.
+Proof.
+  intros Hfr W N1 N2 N3 Hsub Hc Ht.
+  destruct (frameP_fields _ _ Hfr) as (E1 & E2 & E3 & E4 & E5 & E6 & E7 & E8 & E9 & E10 & E11 & E12 & E13 & E14 & E15).
+  destruct W. constructor; unfold live_sock, live_cand, live_refr in *; rewrite ?E1, ?E2, ?E3, ?E4, ?E5, ?E6, ?E7, ?E8, ?E9, ?E11, ?E12, ?E13, ?E14; auto.
+Qed.
+
+Definition cstate_ok (s : state) : Prop := 0 <= cstate s <= 5.
+Lemma signal_spec s n : frameP s (signal_state s n) /\ pairs (signal_state s n) = pairs s /\ trig (signal_state s n) = trig s /\ clist (signal_state s n) = clist s.
+Proof.
+  split; [apply signal_frameP|]. unfold signal_state, flt. destruct (cstate s =? n); [auto|]. destruct (transition_ok _ _); [cbn; auto|].
+  destruct (fault s =? 0); cbn; auto.
+Qed.
+Lemma signal_WF s n : WF s -> WF (signal_state s n).
+Proof.
+  intros W. destruct (signal_spec s n) as (F & E1 & E2 & E3). apply (WF_frameP s); auto; unfold live_pair; rewrite ?E1, ?E2, ?E3; try apply W.
+  intros x Hx; exact Hx.
+Qed.
+Lemma signal_ok s n : fault s = 0 -> (cstate s = n \/ transition_ok (cstate s) n = true) -> fault (signal_state s n) = 0 /\ cstate (signal_state s n) = n.
+Proof.
+  intros Hf H. unfold signal_state. destruct (cstate s =? n) eqn:E; [apply Z.eqb_eq in E; tauto|]. destruct H as [H|H]; [apply Z.eqb_neq in E; contradiction|].
+  rewrite H. cbn. tauto.
+Qed.
+Lemma cstate_cases s : cstate_ok s -> cstate s = 0 \/ cstate s = 1 \/ cstate s = 2 \/ cstate s = 3 \/ cstate s = 4 \/ cstate s = 5.
+Proof. unfold cstate_ok. lia. Qed.
+(** the three kinds of state changes made by conn_check_prune_socket and conn_check_update_check_list_state_for_ready never trip the
+    whitelist assertion of agent_signal_component_state_change *)
+Definition demote (s : state) : state := if cstate s =? 4 then signal_state s 5 else if cstate s =? 3 then signal_state s 2 else s.
+Definition promote (s : state) : state :=
+  let s3 := if (cstate s <? 2) || (cstate s =? 5) then signal_state s 2 else s in
+  let s4 := if cstate s3 <? 3 then signal_state s3 3 else s3 in signal_state s4 4.
+Lemma demote_ok s : fault s = 0 -> cstate_ok s -> fault (demote s) = 0 /\ cstate_ok (demote s).
+Proof.
+  intros Hf Hc. unfold demote, cstate_ok. destruct (cstate_cases s Hc) as [E|[E|[E|[E|[E|E]]]]]; rewrite E; cbn; try (rewrite E; split; [exact Hf|lia]).
+  - destruct (signal_ok s 2 Hf) as [H1 H2]; [right; rewrite E; reflexivity|]. rewrite H2. split; [exact H1|lia].
+  - destruct (signal_ok s 5 Hf) as [H1 H2]; [right; rewrite E; reflexivity|]. rewrite H2. split; [exact H1|lia].
+Qed.
+Lemma promote_ok s : fault s = 0 -> cstate_ok s -> fault (promote s) = 0 /\ cstate_ok (promote s).
+Proof.
+  intros Hf Hc. unfold promote, cstate_ok.
+  assert (K : forall s1, fault s1 = 0 -> cstate s1 = 2 \/ cstate s1 = 3 \/ cstate s1 = 4 ->
+              fault (signal_state (if cstate s1 <? 3 then signal_state s1 3 else s1) 4) = 0 /\ cstate (signal_state (if cstate s1 <? 3 then signal_state s1 3 else s1) 4) = 4).
+  { intros s1 Hf1 [E|[E|E]]; rewrite E; cbn.
+    - destruct (signal_ok s1 3 Hf1) as [H1 H2]; [right; rewrite E; reflexivity|]. apply signal_ok; [exact H1|right; rewrite H2; reflexivity].
+    - apply signal_ok; [exact Hf1|right; rewrite E; reflexivity].
+    - apply signal_ok; [exact Hf1|left; exact E]. }
+  destruct (cstate_cases s Hc) as [E|[E|[E|[E|[E|E]]]]]; rewrite E; cbn.
+  1,2,6: destruct (signal_ok s 2 Hf) as [H1 H2]; [right; rewrite E; reflexivity|]; destruct (K _ H1 (or_introl H2)) as [K1 K2]; rewrite K2; split; [exact K1|lia].
+  all: destruct (K s Hf) as [K1 K2]; [tauto|]; rewrite K2; split; [exact K1|lia].
+Qed.
+Lemma demote_spec s : WF s -> WF (demote s) /\ frameP s (demote s) /\ pairs (demote s) = pairs s /\ trig (demote s) = trig s /\ clist (demote s) = clist s.
+Proof.
+  intros W. unfold demote. destruct (cstate s =? 4); [|destruct (cstate s =? 3)].
+  1,2: split; [apply signal_WF; exact W|apply signal_spec].
+  split; [exact W|]. split; [apply frameP_refl|auto].
+Qed.
+Lemma promote_spec s : WF s -> WF (promote s) /\ frameP s (promote s) /\ pairs (promote s) = pairs s /\ trig (promote s) = trig s /\ clist (promote s) = clist s.
+Proof.
+  intros W. unfold promote.
+  set (s3 := if (cstate s <? 2) || (cstate s =? 5) then signal_state s 2 else s).
+  assert (H3 : WF s3 /\ frameP s s3 /\ pairs s3 = pairs s /\ trig s3 = trig s /\ clist s3 = clist s).
+  { unfold s3. destruct ((cstate s <? 2) || (cstate s =? 5)); [split; [apply signal_WF; exact W|apply signal_spec]|]. split; [exact W|]. split; [apply frameP_refl|auto]. }
+  destruct H3 as (W3 & F3 & A3 & B3 & C3).
+  set (s4 := if cstate s3 <? 3 then signal_state s3 3 else s3).
+  assert (H4 : WF s4 /\ frameP s3 s4 /\ pairs s4 = pairs s3 /\ trig s4 = trig s3 /\ clist s4 = clist s3).
+  { unfold s4. destruct (cstate s3 <? 3); [split; [apply signal_WF; exact W3|apply signal_spec]|]. split; [exact W3|]. split; [apply frameP_refl|auto]. }
+  destruct H4 as (W4 & F4 & A4 & B4 & C4). destruct (signal_spec s4 4) as (F5 & A5 & B5 & C5).
+  split; [apply signal_WF; exact W4|]. split; [eapply frameP_trans; [exact F3|eapply frameP_trans; [exact F4|exact F5]]|]. repeat split; congruence.
+Qed.
+
+Lemma loop_stage {A} (step : state -> pair -> A -> action * A) (Q R : pair -> Prop) s a0 st kept a :
+  (forall st pr a, cands st = cands s -> cid st = cid s -> In pr (pairs s) ->
+     fst (step st pr a) <> AFault /\ (fst (step st pr a) <> AFree -> Q pr) /\ (R pr -> fst (step st pr a) <> AFree)) ->
+  WF s -> fault s = 0 -> pair_loop step (clist s) s a0 = (st, kept, a) ->
+  WF (set_clist st kept) /\ fault (set_clist st kept) = 0 /\ cstate (set_clist st kept) = cstate s /\ frameP s (set_clist st kept) /\
+  (forall x, In x (pairs (set_clist st kept)) -> In x (pairs s)) /\
+  (forall x, In x (pairs s) -> ~ In (p_id x) (clist s) -> In x (pairs (set_clist st kept))) /\
+  (forall i, In i (clist (set_clist st kept)) -> In i (clist s)) /\
+  (forall x, In x (pairs (set_clist st kept)) -> In (p_id x) (clist s) -> In (p_id x) (clist (set_clist st kept)) /\ Q x) /\
+  (forall i, In i (clist s) -> In i (clist (set_clist st kept)) \/ ~ live_pair (set_clist st kept) i) /\
+  (forall x, In x (pairs s) -> R x -> In x (pairs (set_clist st kept)) /\ (In (p_id x) (clist s) -> In (p_id x) (clist (set_clist st kept)))).
+Proof.
+  intros Hstep W Hf Hl. rewrite pair_loop_eq in Hl.
+  destruct (pair_loop_inv step Q R s Hstep (clist s) s [] a0 (frameP_refl s) (fun x H => H) (wf_nd_clist s W) (wf_clist s W) (wf_nd_pairs s W) (wf_nd_trig s W) Hf
+              (NoDup_nil Z) (fun i (H : In i []) => match H with end) st kept a Hl)
+    as (I1 & I2 & I3 & I4 & I5 & I6 & I7 & I8 & I9 & I10 & I11 & I12 & I13 & I14 & I15 & I16 & I17).
+  assert (Hfr : frameP s (set_clist st kept)) by (eapply frameP_trans; [exact I1|apply set_clist_frameP]).
+  cbn [pairs clist fault cstate set_clist]. unfold live_pair. cbn [pairs set_clist].
+  split; [|repeat split; auto].
+  - apply (WF_frameP s); auto.
+    + cbn. intros p Hp. destruct (I12 p Hp) as [[]|H]. apply I15; assumption.
+    + cbn. intros p Hp. apply I10; [exact Hp|]. apply (wf_trig s W). apply I9. exact Hp.
+  - intros i Hi. destruct (I12 i Hi) as [[]|H]. exact H.
+  - destruct (I14 _ H0) as [H1|H1]; [exact H1|]. exfalso. apply H1. apply in_map. exact H.
+  - intros Hc. destruct (I14 _ Hc) as [H2|H2]; [exact H2|]. exfalso. apply H2. apply in_map. apply I17; assumption.
+Qed.
+
+(** ---- conn_check_prune_socket *)
+Definition no_nominated (s : state) : Prop := forall pr, In pr (pairs s) -> p_comp pr = cid s -> p_valid pr = true -> p_nominated pr = true -> False.
+Definition touches_none (s : state) (sk : Z) : Prop :=
+  forall pr, In pr (pairs s) -> In (p_id pr) (clist s) -> p_comp pr = cid s -> pair_touches s pr sk = Some false.
+
+Lemma count_nominated_spec s : WF s -> fst (count_nominated s) = s /\ (no_nominated s -> snd (count_nominated s) = 0).
+Proof.
+  intros W. unfold count_nominated.
+  assert (K : forall l n, (forall i, In i l -> live_pair s i) ->
+     fst (fold_left (fun (acc : state * Z) p => let '(st, n) := acc in
+       match find_pair (pairs st) p with None => (flt st 1, n) | Some pr => if (p_comp pr =? cid st) && p_valid pr && p_nominated pr then (st, n + 1) else (st, n) end) l (s, n)) = s /\
+     (no_nominated s -> snd (fold_left (fun (acc : state * Z) p => let '(st, n) := acc in
+       match find_pair (pairs st) p with None => (flt st 1, n) | Some pr => if (p_comp pr =? cid st) && p_valid pr && p_nominated pr then (st, n + 1) else (st, n) end) l (s, n)) = n)).
+  { induction l as [|p l IH]; intros n Hl; [cbn; auto|]. cbn [fold_left].
+    destruct (find_live p_id (pairs s) p (Hl p (or_introl eq_refl))) as [pr Hfind]. cbv beta iota. unfold find_pair. rewrite Hfind.
+    destruct (find_some_in p_id _ _ _ Hfind) as [Hpr Hid].
+    destruct ((p_comp pr =? cid s) && p_valid pr && p_nominated pr) eqn:E.
+    - destruct (IH (n + 1) (fun i H => Hl i (or_intror H))) as [H1 H2]. split; [exact H1|]. intros Hn. exfalso.
+      apply andb_prop in E. destruct E as [E E3]. apply andb_prop in E. destruct E as [E1 E2]. apply Z.eqb_eq in E1. exact (Hn pr Hpr E1 E2 E3).
+    - apply IH. intros i H. apply Hl. right; exact H. }
+  apply K. apply (wf_clist s W).
+Qed.
+
+Lemma pair_touches_frame s st pr sk : cands st = cands s -> pair_touches st pr sk = pair_touches s pr sk.
+Proof. intros E. unfold pair_touches. rewrite E. reflexivity. Qed.
+Lemma pair_touches_some s pr sk : WF s -> In pr (pairs s) -> pair_touches s pr sk <> None.
+Proof.
+  intros W Hpr. destruct (wf_pair_refs s W pr Hpr) as (H1 & H2 & _). unfold pair_touches.
+  destruct (find_live c_id (cands s) _ H1) as [lc E1]. destruct (find_live c_id (cands s) _ H2) as [rc E2]. unfold find_cand. rewrite E1, E2.
+  destruct (opt_is (c_sock lc) sk); discriminate.
+Qed.
+
+(** what one call of conn_check_prune_socket guarantees *)
+Definition ccps_post (s s' : state) (sk : Z) : Prop :=
+  WF s' /\ fault s' = 0 /\ cstate_ok s' /\ frameP s s' /\
+  (forall x, In x (pairs s') -> In x (pairs s)) /\
+  (forall i, In i (clist s') -> In i (clist s)) /\
+  (forall x, In x (pairs s') -> In (p_id x) (clist s) -> In (p_id x) (clist s')) /\
+  (forall x, In x (pairs s) -> ~ In (p_id x) (clist s) -> In x (pairs s')) /\
+  (forall x, In x (pairs s) -> p_comp x <> cid s -> In x (pairs s') /\ (In (p_id x) (clist s) -> In (p_id x) (clist s'))) /\
+  touches_none s' sk.
+
+Lemma prune_socket_step_ok s sk : WF s -> forall st pr a, cands st = cands s -> cid st = cid s -> In pr (pairs s) ->
+  fst (prune_socket_act sk st pr a) <> AFault /\
+  (fst (prune_socket_act sk st pr a) <> AFree -> (p_comp pr = cid s -> pair_touches s pr sk = Some false)) /\
+  (p_comp pr <> cid s -> fst (prune_socket_act sk st pr a) <> AFree).
+Proof.
+  intros W st pr [[f c] n] Hca Hci Hpr. unfold prune_socket_act. rewrite Hci. destruct (p_comp pr =? cid s) eqn:E; cbn [negb].
+  - apply Z.eqb_eq in E. rewrite (pair_touches_frame s st pr sk Hca). pose proof (pair_touches_some s pr sk W Hpr) as Hs.
+    destruct (pair_touches s pr sk) as [[|]|]; cbn; repeat split; try discriminate; try tauto; congruence.
+  - apply Z.eqb_neq in E. cbn. repeat split; try discriminate; tauto.
+Qed.
+Lemma prune_pending_step_ok s prio : forall st pr a, cands st = cands s -> cid st = cid s -> In pr (pairs s) ->
+  fst (prune_pending_act prio st pr a) <> AFault /\ (fst (prune_pending_act prio st pr a) <> AFree -> True) /\
+  (p_comp pr <> cid s -> fst (prune_pending_act prio st pr a) <> AFree).
+Proof.
+  intros st pr a Hca Hci Hpr. unfold prune_pending_act. rewrite Hci. destruct (p_comp pr =? cid s) eqn:E; cbn [negb].
+  - apply Z.eqb_eq in E. repeat split; [|tauto].
+    destruct (memb (p_id pr) (trig st) && negb (p_state pr =? 2)); [destruct (p_prio pr <? prio); cbn; discriminate|].
+    destruct ((p_state pr =? 5) || (p_state pr =? 1)); [cbn; discriminate|]. destruct (p_state pr =? 2); [destruct (p_prio pr <? prio)|]; cbn; discriminate.
+  - apply Z.eqb_neq in E. cbn. repeat split; try discriminate; tauto.
+Qed.
+
+Lemma transition_to_failed o : transition_ok o 5 = true. Proof. reflexivity. Qed.
+
+Lemma touches_none_sub s s' sk : cands s' = cands s -> cid s' = cid s -> (forall x, In x (pairs s') -> In x (pairs s)) -> (forall i, In i (clist s') -> In i (clist s)) ->
+  touches_none s sk -> touches_none s' sk.
+Proof. intros E1 E2 H1 H2 T pr Hp Hc Hcomp. rewrite (pair_touches_frame s s' pr sk E1). apply T; auto. congruence. Qed.
+Lemma no_nominated_sub s s' : cid s' = cid s -> (forall x, In x (pairs s') -> In x (pairs s)) -> no_nominated s -> no_nominated s'.
+Proof. intros E H N pr Hp Hc. apply (N pr); auto. congruence. Qed.
+
+Lemma keep_all s : WF s -> fault s = 0 -> cstate_ok s ->
+  WF s /\ fault s = 0 /\ cstate_ok s /\ frameP s s /\ pairs s = pairs s /\ trig s = trig s /\ clist s = clist s.
+Proof. intros W Hf Hc. split; [exact W|]. split; [exact Hf|]. split; [exact Hc|]. split; [apply frameP_refl|auto]. Qed.
+Lemma demote_all s : WF s -> fault s = 0 -> cstate_ok s ->
+  WF (demote s) /\ fault (demote s) = 0 /\ cstate_ok (demote s) /\ frameP s (demote s) /\ pairs (demote s) = pairs s /\ trig (demote s) = trig s /\ clist (demote s) = clist s.
+Proof.
+  intros W Hf Hc. destruct (demote_spec s W) as (A1 & A2 & A3 & A4 & A5). destruct (demote_ok s Hf Hc) as [B1 B2].
+  split; [exact A1|]. split; [exact B1|]. split; [exact B2|]. split; [exact A2|auto].
+Qed.
+Ltac post_split := unfold ccps_post; split; [|split; [|split; [|split; [|split; [|split; [|split; [|split; [|split]]]]]]]].
+
+Lemma ccps_spec s sk : WF s -> fault s = 0 -> cstate_ok s -> (no_nominated s \/ sel_prio s > 0) -> ccps_post s (conn_check_prune_socket s sk) sk.
+Proof.
+  intros W Hf Hc Has. unfold conn_check_prune_socket.
+  set (s0 := match sel_l s with None => s | Some l => match find_cand (cands s) l with None => flt s 1 | Some lc => if opt_is (c_sock lc) sk then
+        (if cstate s =? 4 then signal_state s 5 else if cstate s =? 3 then signal_state s 2 else s) else s end end).
+  assert (H0 : WF s0 /\ fault s0 = 0 /\ cstate_ok s0 /\ frameP s s0 /\ pairs s0 = pairs s /\ trig s0 = trig s /\ clist s0 = clist s).
+  { unfold s0. destruct (sel_l s) as [l|] eqn:El; [|apply keep_all; assumption].
+    destruct (find_live c_id (cands s) l (wf_sel_l s W l El)) as [lc Elc]. unfold find_cand. rewrite Elc.
+    destruct (opt_is (c_sock lc) sk); [|apply keep_all; assumption].
+    change (if cstate s =? 4 then signal_state s 5 else if cstate s =? 3 then signal_state s 2 else s) with (demote s).
+    apply demote_all; assumption. }
+  destruct H0 as (W0 & Hf0 & Hc0 & F0 & Ep0 & Et0 & Ec0). clearbody s0.
+  destruct (frameP_fields _ _ F0) as (_ & Eca0 & _ & _ & _ & _ & _ & _ & _ & Epr0 & _ & _ & _ & _ & Eci0).
+  destruct (pair_loop (prune_socket_act sk) (clist s0) s0 (false, 0, 0)) as [[st kept] [[failed cnt] nom]] eqn:EL.
+  destruct (loop_stage (prune_socket_act sk) (fun pr => p_comp pr = cid s0 -> pair_touches s0 pr sk = Some false) (fun pr => p_comp pr <> cid s0)
+              s0 (false, 0, 0) st kept (failed, cnt, nom) (prune_socket_step_ok s0 sk W0) W0 Hf0 EL)
+    as (W1 & Hf1 & Ecs1 & F1 & S1 & K1 & C1 & O1 & D1 & R1).
+  set (s1 := set_clist st kept) in *. clearbody s1.
+  destruct (frameP_fields _ _ F1) as (_ & Eca1 & _ & _ & _ & _ & _ & _ & _ & Epr1 & _ & _ & _ & _ & Eci1).
+  assert (T1 : touches_none s1 sk).
+  { intros pr Hp Hcl Hcomp. rewrite (pair_touches_frame s0 s1 pr sk Eca1). apply (O1 pr Hp); [apply C1; exact Hcl|congruence]. }
+  assert (Hc1 : cstate_ok s1) by (unfold cstate_ok in *; rewrite Ecs1; exact Hc0).
+  assert (P1 : ccps_post s s1 sk).
+  { post_split.
+    - exact W1.
+    - exact Hf1.
+    - exact Hc1.
+    - eapply frameP_trans; eassumption.
+    - intros x Hx. rewrite <- Ep0. apply S1. exact Hx.
+    - intros i Hi. rewrite <- Ec0. apply C1. exact Hi.
+    - intros x Hx Hi. apply (O1 x Hx). rewrite Ec0. exact Hi.
+    - intros x Hx Hi. apply K1; [rewrite Ep0; exact Hx|rewrite Ec0; exact Hi].
+    - intros x Hx Hn. rewrite <- Ep0 in Hx. rewrite <- Eci0 in Hn. destruct (R1 x Hx Hn) as [R1a R1b]. split; [exact R1a|]. intros Hi. apply R1b. rewrite Ec0. exact Hi.
+    - exact T1. }
+  destruct failed; [|exact P1].
+  (* state changes after failed pairs, then conn_check_update_check_list_state_for_ready *)
+  set (s2 := if cnt =? 0 then signal_state s1 5 else if nom =? 0 then (if cstate s1 =? 4 then signal_state s1 5 else if cstate s1 =? 3 then signal_state s1 2 else s1) else s1).
+  assert (H2 : WF s2 /\ fault s2 = 0 /\ cstate_ok s2 /\ frameP s1 s2 /\ pairs s2 = pairs s1 /\ trig s2 = trig s1 /\ clist s2 = clist s1).
+  { unfold s2. destruct (cnt =? 0).
+    - destruct (signal_spec s1 5) as (A1 & A2 & A3 & A4). destruct (signal_ok s1 5 Hf1 (or_intror (transition_to_failed _))) as [B1 B2].
+      split; [apply signal_WF; exact W1|]. split; [exact B1|]. split; [unfold cstate_ok; rewrite B2; lia|]. split; [exact A1|auto].
+    - destruct (nom =? 0); [|apply keep_all; assumption].
+      change (if cstate s1 =? 4 then signal_state s1 5 else if cstate s1 =? 3 then signal_state s1 2 else s1) with (demote s1).
+      apply demote_all; assumption. }
+  destruct H2 as (W2 & Hf2 & Hc2 & F2 & Ep2 & Et2 & Ec2). clearbody s2.
+  destruct (frameP_fields _ _ F2) as (_ & Eca2 & _ & _ & _ & _ & _ & _ & _ & Epr2 & _ & _ & _ & _ & Eci2).
+  assert (P2 : ccps_post s s2 sk).
+  { destruct P1 as (_ & _ & _ & Q4 & Q5 & Q6 & Q7 & Q8 & Q9 & Q10). unfold ccps_post. rewrite Ep2, Ec2. post_split; auto.
+    - eapply frameP_trans; eassumption.
+    - apply (touches_none_sub s1 s2 sk); auto; [rewrite Ep2; auto|rewrite Ec2; auto]. }
+  unfold update_check_list_state_for_ready. destruct (count_nominated_spec s2 W2) as [N1 N2].
+  destruct (count_nominated s2) as [s2' nominated]. cbn [fst snd] in N1, N2. subst s2'.
+  destruct (nominated >? 0) eqn:En; [|exact P2].
+  assert (Hprio : sel_prio s2 > 0).
+  { destruct Has as [Hn|Hp]; [|congruence]. exfalso. rewrite N2 in En; [discriminate|].
+    apply (no_nominated_sub s); [congruence| |exact Hn]. intros x Hx. rewrite <- Ep0. apply S1. rewrite <- Ep2. exact Hx. }
+  unfold prune_pending_checks. assert (Eg : sel_prio s2 >? 0 = true) by (apply Z.gtb_lt; lia). rewrite Eg.
+  destruct (pair_loop (prune_pending_act (sel_prio s2)) (clist s2) s2 0) as [[st3 kept3] n3] eqn:EL3.
+  destruct (loop_stage (prune_pending_act (sel_prio s2)) (fun _ => True) (fun pr => p_comp pr <> cid s2) s2 0 st3 kept3 n3 (prune_pending_step_ok s2 (sel_prio s2)) W2 Hf2 EL3)
+    as (W3 & Hf3 & Ecs3 & F3 & S3 & K3 & C3 & O3 & D3 & R3).
+  set (s3 := set_clist st3 kept3) in *. clearbody s3.
+  destruct (frameP_fields _ _ F3) as (_ & Eca3 & _ & _ & _ & _ & _ & _ & _ & Epr3 & _ & _ & _ & _ & Eci3).
+  assert (Hc3 : cstate_ok s3) by (unfold cstate_ok in *; rewrite Ecs3; exact Hc2).
+  assert (P3 : ccps_post s s3 sk).
+  { destruct P2 as (_ & _ & _ & Q4 & Q5 & Q6 & Q7 & Q8 & Q9 & Q10). post_split.
+    - exact W3.
+    - exact Hf3.
+    - exact Hc3.
+    - eapply frameP_trans; eassumption.
+    - intros x Hx. apply Q5. apply S3. exact Hx.
+    - intros i Hi. apply Q6. apply C3. exact Hi.
+    - intros x Hx Hi. apply (O3 x Hx). apply Q7; [apply S3; exact Hx|exact Hi].
+    - intros x Hx Hi. apply K3; [apply Q8; assumption|]. intro H. apply Hi. apply Q6. exact H.
+    - intros x Hx Hn. destruct (Q9 x Hx Hn) as [Q9a Q9b]. split; [|intros Hi]; apply R3; auto; congruence.
+    - apply (touches_none_sub s2 s3 sk); auto. }
+  destruct (n3 =? 0); [|exact P3].
+  change (signal_state (if cstate (if (cstate s3 <? 2) || (cstate s3 =? 5) then signal_state s3 2 else s3) <? 3
+             then signal_state (if (cstate s3 <? 2) || (cstate s3 =? 5) then signal_state s3 2 else s3) 3
+             else if (cstate s3 <? 2) || (cstate s3 =? 5) then signal_state s3 2 else s3) 4) with (promote s3).
+  destruct (promote_spec s3 W3) as (A1 & A2 & A3 & A4 & A5). destruct (promote_ok s3 Hf3 Hc3) as [B1 B2].
+  destruct (frameP_fields _ _ A2) as (_ & Eca4 & _ & _ & _ & _ & _ & _ & _ & _ & _ & _ & _ & _ & Eci4).
+  destruct P3 as (_ & _ & _ & Q4 & Q5 & Q6 & Q7 & Q8 & Q9 & Q10). unfold ccps_post. rewrite A3, A5. post_split; auto.
+  - eapply frameP_trans; eassumption.
+  - apply (touches_none_sub s3 (promote s3) sk); auto; [rewrite A3; auto|rewrite A5; auto].
+Qed.
+
+(** ---- refreshes *)
+Definition updR (s : state) rf rl pr fl := set_fault (set_pruning (set_rlist (set_refrs s rf) rl) pr) fl.
+Definition frameR (s s' : state) : Prop := s' = updR s (refrs s') (rlist s') (pruning s') (fault s').
+Lemma frameR_refl s : frameR s s. Proof. destruct s; reflexivity. Qed.
+Lemma frameR_trans a b c : frameR a b -> frameR b c -> frameR a c.
+Proof. unfold frameR, updR. destruct a, b, c; cbn. intros H1 H2. injection H1; injection H2; intros; subst; reflexivity. Qed.
+Lemma frameR_fields s s' : frameR s s' ->
+  socks s' = socks s /\ cands s' = cands s /\ pairs s' = pairs s /\ lcands s' = lcands s /\ rcands s' = rcands s /\ sources s' = sources s /\
+  ichecks s' = ichecks s /\ sel_l s' = sel_l s /\ sel_r s' = sel_r s /\ sel_prio s' = sel_prio s /\ turn_cand s' = turn_cand s /\
+  discs s' = discs s /\ clist s' = clist s /\ trig s' = trig s /\ cid s' = cid s /\ cstate s' = cstate s.
+Proof. intros H. rewrite H. cbn. repeat split. Qed.
+Lemma WF_frameR {ex} s s' : frameR s s' -> WFx ex s ->
+  NoDup (map r_id (refrs s')) -> NoDup (rlist s') -> NoDup (pruning s') -> (forall x, In x (refrs s') -> In x (refrs s)) ->
+  (forall r, In r (rlist s') -> live_refr s' r) -> (forall r, In r (pruning s') -> live_refr s' r) -> WFx ex s'.
+Proof.
+  intros Hfr W N1 N2 N3 Hsub Hc Ht.
+  destruct (frameR_fields _ _ Hfr) as (E1 & E2 & E3 & E4 & E5 & E6 & E7 & E8 & E9 & E10 & E11 & E12 & E13 & E14 & E15 & E16).
+  destruct W. constructor; unfold live_sock, live_cand, live_pair in *; rewrite ?E1, ?E2, ?E3, ?E4, ?E5, ?E6, ?E7, ?E8, ?E9, ?E11, ?E12, ?E13, ?E14; auto.
+Qed.
+Lemma refresh_free_live s r rf : find_refr (refrs s) r = Some rf ->
+  refrs (refresh_free s r) = filter (fun x => negb (r_id x =? r)) (refrs s) /\ rlist (refresh_free s r) = remove1 r (rlist s) /\
+  pruning (refresh_free s r) = remove1 r (pruning s) /\ fault (refresh_free s r) = fault s /\ frameR s (refresh_free s r).
+Proof.
+  intros H. unfold refresh_free, free_refr. cbn [refrs set_pruning set_rlist]. rewrite H. cbn. repeat split; try (destruct s; reflexivity).
+Qed.
+
+Definition refresh_step (test : refr -> bool) (st : state) (r : Z) : state :=
+  match find_refr (refrs st) r with None => flt st 1 | Some rf => if test rf then refresh_free st r else st end.
+Lemma refresh_pass_eq test l s : refresh_pass test l s = fold_left (refresh_step test) l s. Proof. reflexivity. Qed.
+
+Lemma refresh_pass_inv test : forall l st,
+  NoDup l -> (forall i, In i l -> live_refr st i) -> NoDup (map r_id (refrs st)) -> NoDup (rlist st) -> NoDup (pruning st) -> fault st = 0 ->
+  let s' := fold_left (refresh_step test) l st in
+  frameR st s' /\ fault s' = 0 /\
+  (forall x, In x (refrs s') -> In x (refrs st)) /\
+  (forall x, In x (refrs st) -> ~ (In (r_id x) l /\ test x = true) -> In x (refrs s')) /\
+  (forall x, In x (refrs s') -> In (r_id x) l -> test x = false) /\
+  NoDup (map r_id (refrs s')) /\ NoDup (rlist s') /\ NoDup (pruning s') /\
+  (forall i, In i (rlist s') -> In i (rlist st)) /\ (forall i, In i (pruning s') -> In i (pruning st)) /\
+  (forall i, In i (rlist s') -> live_refr st i -> live_refr s' i) /\ (forall i, In i (pruning s') -> live_refr st i -> live_refr s' i) /\
+  (forall i, In i (rlist st) -> live_refr s' i -> In i (rlist s')) /\ (forall i, In i (pruning st) -> live_refr s' i -> In i (pruning s')).
+Proof.
+  induction l as [|r l IH]; intros st Hnl Hlive Hnr Hn1 Hn2 Hf; cbn [fold_left].
+  - repeat split; auto; try tauto; try apply frameR_refl. intros x _ [].
+  - inversion Hnl as [|? ? Hrl Hnl']; subst.
+    destruct (find_live r_id (refrs st) r (Hlive r (or_introl eq_refl))) as [rf Hfind]. destruct (find_some_in r_id _ _ _ Hfind) as [Hrf Hid].
+    assert (Estep : refresh_step test st r = if test rf then refresh_free st r else st) by (unfold refresh_step, find_refr; rewrite Hfind; reflexivity).
+    rewrite Estep. destruct (test rf) eqn:Et.
+    + destruct (refresh_free_live st r rf Hfind) as (E1 & E2 & E3 & E4 & F).
+      assert (Hkeep : forall i, i <> r -> live_refr st i -> live_refr (refresh_free st r) i).
+      { intros i Hi Hl. unfold live_refr in *. rewrite E1. apply in_map_iff in Hl. destruct Hl as (x & Hx & Hin). apply in_map_iff. exists x. split; [exact Hx|].
+        apply filter_In. split; [exact Hin|]. rewrite Hx. destruct (i =? r) eqn:E; [apply Z.eqb_eq in E; contradiction|reflexivity]. }
+      destruct (IH (refresh_free st r)) as (I1 & I2 & I3 & I4 & I5 & I6 & I7 & I8 & I9 & I10 & I11 & I12 & I13 & I14); auto.
+      * intros i Hi. apply Hkeep; [intros ->; contradiction|apply Hlive; right; exact Hi].
+      * rewrite E1. apply nodup_map_filter. exact Hnr.
+      * rewrite E2. apply remove1_nodup. exact Hn1.
+      * rewrite E3. apply remove1_nodup. exact Hn2.
+      * congruence.
+      * assert (Hs : forall x, In x (refrs (fold_left (refresh_step test) l (refresh_free st r))) -> In x (refrs st) /\ r_id x <> r).
+        { intros x Hx. specialize (I3 x Hx). rewrite E1 in I3. apply filter_In in I3. destruct I3 as [I3 I3']. split; [exact I3|].
+          intros E. rewrite E, Z.eqb_refl in I3'. discriminate. }
+        split; [eapply frameR_trans; eassumption|]. split; [exact I2|]. repeat split; auto.
+        -- intros x Hx. destruct (Hs x Hx) as [H _]. exact H.
+        -- intros x Hx Hn. apply I4.
+           ++ rewrite E1. apply filter_In. split; [exact Hx|]. destruct (r_id x =? r) eqn:E; [|reflexivity]. apply Z.eqb_eq in E. exfalso. apply Hn.
+              assert (x = rf) by (apply (nodup_id_unique r_id (refrs st)); [exact Hnr|exact Hx|exact Hrf|congruence]). subst x. split; [left; congruence|exact Et].
+           ++ intros [H1 H2]. apply Hn. split; [right; exact H1|exact H2].
+        -- intros x Hx [E|Hi]; [exfalso; destruct (Hs x Hx) as [_ H]; apply H; congruence|apply I5; assumption].
+        -- intros i Hi. specialize (I9 i Hi). rewrite E2 in I9. eapply remove1_incl; exact I9.
+        -- intros i Hi. specialize (I10 i Hi). rewrite E3 in I10. eapply remove1_incl; exact I10.
+        -- intros i Hi Hl. apply I11; [exact Hi|]. apply Hkeep; [|exact Hl]. intros ->. specialize (I9 r Hi). rewrite E2 in I9. exact (remove1_notin r _ Hn1 I9).
+        -- intros i Hi Hl. apply I12; [exact Hi|]. apply Hkeep; [|exact Hl]. intros ->. specialize (I10 r Hi). rewrite E3 in I10. exact (remove1_notin r _ Hn2 I10).
+        -- intros i Hi Hl. apply I13; [|exact Hl]. rewrite E2. apply remove1_keep; [exact Hi|]. intros ->. unfold live_refr in Hl. apply in_map_iff in Hl.
+           destruct Hl as (x & Hx & Hin). destruct (Hs x Hin) as [_ H]. contradiction.
+        -- intros i Hi Hl. apply I14; [|exact Hl]. rewrite E3. apply remove1_keep; [exact Hi|]. intros ->. unfold live_refr in Hl. apply in_map_iff in Hl.
+           destruct Hl as (x & Hx & Hin). destruct (Hs x Hin) as [_ H]. contradiction.
+    + destruct (IH st) as (I1 & I2 & I3 & I4 & I5 & I6 & I7 & I8 & I9 & I10 & I11 & I12 & I13 & I14); auto.
+      * intros i Hi. apply Hlive. right; exact Hi.
+      * split; [exact I1|]. split; [exact I2|]. repeat split; auto.
+        -- intros x Hx Hn. apply I4; [exact Hx|]. intros [H1 H2]. apply Hn. split; [right; exact H1|exact H2].
+        -- intros x Hx [E|Hi]; [|apply I5; assumption]. assert (x = rf); [|subst x; exact Et].
+           apply (nodup_id_unique r_id (refrs st)); [exact Hnr|apply I3; exact Hx|exact Hrf|congruence].
+Qed.
+
+(** ---- small operations *)
+Lemma WFx_weaken ex s : WF s -> WFx ex s.
+Proof. intros W. destruct W. constructor; auto. intros c k Hc Hk _. eapply wf_cand_sock0; eauto. discriminate. Qed.
+Lemma clear_selected_WF {ex} s : WFx ex s -> WFx ex (clear_selected_pair s).
+Proof. intros W. destruct W. constructor; cbn; auto; intros; discriminate. Qed.
+Lemma discovery_prune_WF {ex} s k : WFx ex s -> WFx ex (discovery_prune_socket s k).
+Proof. intros W. destruct W. constructor; cbn; auto. intros d Hd. apply filter_In in Hd. apply wf_discs0. tauto. Qed.
+
+Definition sock_base (s : state) (k : Z) : option Z := match find_sock (socks s) k with Some sk => sk_base sk | None => None end.
+Definition on_ns (s : state) (ns k : Z) : Prop := k = ns \/ sock_base s k = Some ns.
+
+Lemma based_on_depth1 h a b k : find_sock h a = Some k ->
+  (forall base, sk_base k = Some base -> exists kb, find_sock h base = Some kb /\ sk_base kb = None) ->
+  based_on (length h) h a b = Some ((a =? b) || opt_is (sk_base k) b).
+Proof.
+  intros Hf Hd. destruct h as [|x h]; [discriminate|]. cbn [length]. cbn [based_on]. rewrite Hf. destruct (sk_base k) as [base|] eqn:Eb.
+  - destruct (a =? b); [reflexivity|]. cbn [orb opt_is]. destruct (Hd base eq_refl) as (kb & Hkb & Hp).
+    destruct (length h); cbn [based_on]; rewrite Hkb, Hp; reflexivity.
+  - cbn. rewrite orb_false_r. reflexivity.
+Qed.
+
+(** ---- nice_component_detach_socket: safe once only the candidate [c] (about to be freed) still points to the socket *)
+Lemma detach_spec s k c : WF s -> fault s = 0 -> In k (sources s) ->
+  (forall x, In x (socks s) -> sk_base x <> Some k) -> (forall x, In x (cands s) -> c_sock x = Some k -> c_id x = c) ->
+  (forall p, In p (pairs s) -> p_sock p <> k) -> (forall r, In r (refrs s) -> r_sock r <> k) -> (forall d, In d (discs s) -> d_sock d <> k) ->
+  WFx (Some c) (detach_socket s k) /\ fault (detach_socket s k) = 0 /\
+  detach_socket s k = set_socks (set_sources (set_ichecks s (filter (fun i => negb (i_sock i =? k)) (ichecks s))) (remove1 k (sources s))) (filter (fun x => negb (sk_id x =? k)) (socks s)).
+Proof.
+  intros W Hf Hk Hb Hc Hp Hr Hd. unfold detach_socket. cbn [sources set_ichecks]. destruct (memb k (sources s)) eqn:Em; [|apply memb_In in Hk; congruence].
+  unfold free_sock. cbn [socks set_sources set_ichecks]. destruct (find_live sk_id (socks s) k (wf_sources s W k Hk)) as [sk Hsk]. unfold find_sock. rewrite Hsk.
+  split; [|split; [exact Hf|reflexivity]].
+  assert (Hlive : forall j, j <> k -> live_sock s j -> In j (map sk_id (filter (fun x => negb (sk_id x =? k)) (socks s)))).
+  { intros j Hj Hl. unfold live_sock in Hl. apply in_map_iff in Hl. destruct Hl as (x & Hx & Hin). apply in_map_iff. exists x. split; [exact Hx|].
+    apply filter_In. split; [exact Hin|]. rewrite Hx. destruct (j =? k) eqn:E; [apply Z.eqb_eq in E; contradiction|reflexivity]. }
+  destruct W. constructor; cbn; unfold live_sock in *; cbn; auto.
+  - apply nodup_map_filter. assumption.
+  - apply remove1_nodup. assumption.
+  - intros x b Hx Hbx. apply filter_In in Hx. destruct Hx as [Hx _]. apply Hlive; [intros ->; exact (Hb x Hx Hbx)|eapply wf_base0; eassumption].
+  - intros x j Hx Hj Hex. apply Hlive; [|eapply wf_cand_sock0; try eassumption; discriminate]. intros ->. apply Hex. f_equal. symmetry. apply Hc; assumption.
+  - intros p Hpp. destruct (wf_pair_refs0 p Hpp) as (A & B & C). repeat split; auto.
+  - intros r Hrr. destruct (wf_refr_refs0 r Hrr) as (A & B). split; auto.
+  - intros j Hj. apply Hlive; [intros ->; exact (remove1_notin k _ wf_nd_sources0 Hj)|apply wf_sources0; eapply remove1_incl; exact Hj].
+  - intros i Hi. apply filter_In in Hi. destruct Hi as [Hi Hn]. apply Hlive; [|apply wf_ichecks0; exact Hi]. intros E. rewrite E, Z.eqb_refl in Hn. discriminate.
+Qed.
+
+(** freeing candidate [c] and unlinking it from its list, once nothing else refers to it *)
+Definition drop_cand (s : state) (c : Z) (loc : bool) : state :=
+  if loc then set_lcands (free_cand s c) (remove1 c (lcands (free_cand s c))) else set_rcands (free_cand s c) (remove1 c (rcands (free_cand s c))).
+Lemma drop_spec s c loc : WFx (Some c) s -> fault s = 0 -> live_cand s c ->
+  (loc = true -> ~ In c (rcands s)) -> (loc = false -> ~ In c (lcands s)) ->
+  (forall p, In p (pairs s) -> p_local p <> c /\ p_remote p <> c) -> (forall r, In r (refrs s) -> r_cand r <> c) ->
+  sel_l s <> Some c -> sel_r s <> Some c -> turn_cand s <> Some c ->
+  WF (drop_cand s c loc) /\ fault (drop_cand s c loc) = 0 /\
+  drop_cand s c loc = (if loc then set_lcands (set_cands s (filter (fun x => negb (c_id x =? c)) (cands s))) (remove1 c (lcands s))
+                       else set_rcands (set_cands s (filter (fun x => negb (c_id x =? c)) (cands s))) (remove1 c (rcands s))).
+Proof.
+  intros W Hf Hl Ho1 Ho2 Hp Hr H1 H2 H3.
+  assert (E : free_cand s c = set_cands s (filter (fun x => negb (c_id x =? c)) (cands s))).
+  { unfold free_cand. destruct (find_live c_id (cands s) c Hl) as [cd Hcd]. unfold find_cand. rewrite Hcd. reflexivity. }
+  unfold drop_cand. rewrite E.
+  assert (Hlive : forall j, j <> c -> live_cand s j -> In j (map c_id (filter (fun x => negb (c_id x =? c)) (cands s)))).
+  { intros j Hj Hlj. unfold live_cand in Hlj. apply in_map_iff in Hlj. destruct Hlj as (x & Hx & Hin). apply in_map_iff. exists x. split; [exact Hx|].
+    apply filter_In. split; [exact Hin|]. rewrite Hx. destruct (j =? c) eqn:E'; [apply Z.eqb_eq in E'; contradiction|reflexivity]. }
+  split; [|split; [destruct loc; exact Hf|destruct loc; reflexivity]].
+  destruct W. destruct loc; constructor; cbn; unfold live_cand in *; cbn; auto.
+  all: try (apply nodup_map_filter; assumption).
+  all: try (apply remove1_nodup; assumption).
+  all: try (intros x j Hx Hj _; apply filter_In in Hx; destruct Hx as [Hx Hn]; eapply wf_cand_sock0; try eassumption;
+            intros E'; injection E' as E'; rewrite <- E', Z.eqb_refl in Hn; discriminate).
+  all: try (intros p Hpp; destruct (wf_pair_refs0 p Hpp) as (A & B & C); destruct (Hp p Hpp) as [D1 D2]; repeat split; auto).
+  all: try (intros r Hrr; destruct (wf_refr_refs0 r Hrr) as (A & B); split; [exact A|apply Hlive; [apply Hr; exact Hrr|exact B]]).
+  all: try (intros j Hj; apply Hlive; [intros ->; eapply remove1_notin; [|exact Hj]; assumption|first [apply wf_lcands0; eapply remove1_incl; exact Hj|apply wf_rcands0; eapply remove1_incl; exact Hj]]).
+  all: try (intros j Hj; apply Hlive; [intros ->; first [apply (Ho1 eq_refl); exact Hj|apply (Ho2 eq_refl); exact Hj]|first [apply wf_lcands0; exact Hj|apply wf_rcands0; exact Hj]]).
+  all: try (intros j Hj; apply Hlive; [intros ->; congruence|first [apply wf_sel_l0; exact Hj|apply wf_sel_r0; exact Hj|apply wf_turn0; exact Hj]]).
+Qed.
+
+(** ---- the hypotheses under which nice_component_remove_socket is proved sound (each one is violated by a `_refuted` state below or is
+    an ownership fact of the agent: a TURN socket layered on [ns] belongs to exactly one local candidate of this component, ...) *)
+Record Pre (s : state) (ns : Z) : Prop := {
+  pre_depth : forall k kb, In k (socks s) -> In kb (socks s) -> sk_base k = Some (sk_id kb) -> sk_base kb = None;
+  pre_home : forall c k, In c (cands s) -> c_sock c = Some k -> on_ns s ns k -> In (c_id c) (lcands s) \/ (k = ns /\ In (c_id c) (rcands s));
+  pre_unique : forall c1 c2 k, In c1 (cands s) -> In c2 (cands s) -> c_sock c1 = Some k -> c_sock c2 = Some k -> sock_base s k = Some ns -> c1 = c2;
+  pre_wrap : forall k, In k (socks s) -> sk_base k = Some ns -> In (sk_id k) (sources s) /\ exists c, In c (cands s) /\ c_sock c = Some (sk_id k);
+  pre_refr_sock : forall r, In r (refrs s) -> sock_base s (r_sock r) <> Some ns;
+  pre_refr_cand : forall r, In r (refrs s) -> ~ In (r_cand r) (rcands s);
+  pre_refr_owned : forall r, In r (refrs s) -> In (r_id r) (rlist s);
+  pre_pair_owned : forall p, In p (pairs s) -> In (p_id p) (clist s);
+  pre_foreign : forall p, In p (pairs s) -> p_comp p <> cid s ->
+     ~ In (p_local p) (lcands s) /\ ~ In (p_local p) (rcands s) /\ ~ In (p_remote p) (lcands s) /\ ~ In (p_remote p) (rcands s) /\ ~ In (p_sock p) (sources s);
+  pre_disjoint : forall c, In c (lcands s) -> ~ In c (rcands s);
+  pre_sel_l : forall c, sel_l s = Some c -> ~ In c (rcands s);
+  pre_sel_r : forall c, sel_r s = Some c -> ~ In c (lcands s);
+  pre_turn : forall c, turn_cand s = Some c -> ~ In c (lcands s) /\ ~ In c (rcands s);
+  pre_lsock : forall c, In c (cands s) -> In (c_id c) (lcands s) -> c_sock c <> None;
+  pre_cstate : cstate_ok s;
+  pre_fault : fault s = 0
+}.
+
+Lemma sock_base_sub s s' k b : NoDup (map sk_id (socks s)) -> (forall x, In x (socks s') -> In x (socks s)) -> sock_base s' k = Some b -> sock_base s k = Some b.
+Proof.
+  intros Hn Hs. unfold sock_base. destruct (find_sock (socks s') k) as [x|] eqn:E; [|discriminate]. destruct (find_some_in sk_id _ _ _ E) as [Hx Hid].
+  unfold find_sock. rewrite <- Hid. rewrite (find_in_nodup sk_id (socks s) x Hn (Hs x Hx)). tauto.
+Qed.
+Lemma on_ns_sub s s' ns k : NoDup (map sk_id (socks s)) -> (forall x, In x (socks s') -> In x (socks s)) -> on_ns s' ns k -> on_ns s ns k.
+Proof. intros Hn Hs [H|H]; [left; exact H|right; eapply sock_base_sub; eassumption]. Qed.
+Lemma sock_base_in s k : NoDup (map sk_id (socks s)) -> In k (socks s) -> sock_base s (sk_id k) = sk_base k.
+Proof. intros Hn Hk. unfold sock_base, find_sock. rewrite (find_in_nodup sk_id (socks s) k Hn Hk). reflexivity. Qed.
+
+Lemma Pre_shrink s s' ns : Pre s ns -> NoDup (map sk_id (socks s)) ->
+  (forall x, In x (socks s') -> In x (socks s)) -> (forall x, In x (cands s') -> In x (cands s)) -> (forall x, In x (pairs s') -> In x (pairs s)) ->
+  (forall x, In x (refrs s') -> In x (refrs s)) -> (forall x, In x (lcands s') -> In x (lcands s)) -> (forall x, In x (rcands s') -> In x (rcands s)) ->
+  (forall x, In x (sources s') -> In x (sources s)) -> (sel_l s' = sel_l s \/ sel_l s' = None) -> (sel_r s' = sel_r s \/ sel_r s' = None) ->
+  turn_cand s' = turn_cand s -> cid s' = cid s ->
+  (forall x, In x (cands s') -> In (c_id x) (lcands s) -> In (c_id x) (lcands s')) -> (forall x, In x (cands s') -> In (c_id x) (rcands s) -> In (c_id x) (rcands s')) ->
+  (forall k, In k (socks s') -> In (sk_id k) (sources s) -> In (sk_id k) (sources s')) ->
+  (forall x k, In x (cands s) -> In k (socks s') -> sk_base k = Some ns -> c_sock x = Some (sk_id k) -> In x (cands s')) ->
+  (forall r, In r (refrs s') -> In (r_id r) (rlist s) -> In (r_id r) (rlist s')) -> (forall p, In p (pairs s') -> In (p_id p) (clist s) -> In (p_id p) (clist s')) ->
+  cstate_ok s' -> fault s' = 0 -> Pre s' ns.
+Proof.
+  intros P Hn S1 S2 S3 S4 S5 S6 S7 S8 S9 S10 S11 X2 X2' X3a X3b X4a X4b X5 X6. destruct P. constructor.
+  - intros k kb Hk Hkb Hb. apply (pre_depth0 k kb); auto.
+  - intros c k Hc Hk Ho. destruct (pre_home0 c k (S2 c Hc) Hk (on_ns_sub s s' ns k Hn S1 Ho)) as [H|[H1 H2]]; [left; apply X2; assumption|right; split; [exact H1|apply X2'; assumption]].
+  - intros c1 c2 k H1 H2 H3 H4 H5. apply (pre_unique0 c1 c2 k); auto. eapply sock_base_sub; eassumption.
+  - intros k Hk Hb. destruct (pre_wrap0 k (S1 k Hk) Hb) as [H1 (c & Hc & Hs)]. split; [apply X3a; assumption|]. exists c. split; [eapply X3b; eassumption|exact Hs].
+  - intros r Hr E. apply (pre_refr_sock0 r (S4 r Hr)). eapply sock_base_sub; eassumption.
+  - intros r Hr E. apply (pre_refr_cand0 r (S4 r Hr)). apply S6. exact E.
+  - intros r Hr. apply X4a; [exact Hr|]. apply pre_refr_owned0. apply S4. exact Hr.
+  - intros p Hp. apply X4b; [exact Hp|]. apply pre_pair_owned0. apply S3. exact Hp.
+  - intros p Hp Hc. rewrite S11 in Hc. destruct (pre_foreign0 p (S3 p Hp) Hc) as (A & B & C & D & E). repeat split; intro H; [apply A|apply B|apply C|apply D|apply E]; auto.
+  - intros c Hc E. apply (pre_disjoint0 c (S5 c Hc)). apply S6. exact E.
+  - intros c Hc E. destruct S8 as [S8|S8]; rewrite S8 in Hc; [|discriminate]. apply (pre_sel_l0 c Hc). apply S6. exact E.
+  - intros c Hc E. destruct S9 as [S9|S9]; rewrite S9 in Hc; [|discriminate]. apply (pre_sel_r0 c Hc). apply S5. exact E.
+  - intros c Hc. rewrite S10 in Hc. destruct (pre_turn0 c Hc) as [A B]. split; intro H; [apply A|apply B]; auto.
+  - intros c Hc Hl. apply (pre_lsock0 c (S2 c Hc)). apply S5. exact Hl.
+  - exact X5.
+  - exact X6.
+Qed.
+
+(** ---- tear-down: whatever the state, every container of the component is empty afterwards *)
+Lemma flt_frameR s k : frameR s (flt s k).
+Proof. unfold flt. destruct (fault s =? 0); [destruct s; reflexivity|apply frameR_refl]. Qed.
+Lemma refresh_step_frameR test s r : frameR s (refresh_step test s r).
+Proof.
+  unfold refresh_step. destruct (find_refr (refrs s) r) as [rf|]; [|apply flt_frameR]. destruct (test rf); [|apply frameR_refl].
+  unfold refresh_free, free_refr. cbn [refrs set_pruning set_rlist]. destruct (find_refr (refrs s) r); [destruct s; reflexivity|].
+  eapply frameR_trans; [|apply flt_frameR]. destruct s; reflexivity.
+Qed.
+Lemma refresh_pass_frameR test l : forall s, frameR s (refresh_pass test l s).
+Proof.
+  intros s. rewrite refresh_pass_eq. revert s. induction l as [|r l IH]; intros s; [apply frameR_refl|]. cbn [fold_left].
+  eapply frameR_trans; [apply refresh_step_frameR|apply IH].
+Qed.
+Lemma refresh_prune_socket_frameR s k : frameR s (refresh_prune_socket s k).
+Proof. unfold refresh_prune_socket. eapply frameR_trans; apply refresh_pass_frameR. Qed.
+Lemma fold_refresh_prune_frameR l : forall s, frameR s (fold_left refresh_prune_socket l s).
+Proof. induction l as [|k l IH]; intros s; [apply frameR_refl|]. cbn [fold_left]. eapply frameR_trans; [apply refresh_prune_socket_frameR|apply IH]. Qed.
+
+Definition frameS (s s' : state) : Prop := s' = set_fault (set_socks s (socks s')) (fault s').
+Lemma frameS_refl s : frameS s s. Proof. destruct s; reflexivity. Qed.
+Lemma frameS_trans a b c : frameS a b -> frameS b c -> frameS a c.
+Proof. unfold frameS. destruct a, b, c; cbn. intros H1 H2. injection H1; injection H2; intros; subst; reflexivity. Qed.
+Lemma free_sock_frameS s k : frameS s (free_sock s k).
+Proof. unfold free_sock, flt. destruct (find_sock (socks s) k); [destruct s; reflexivity|]. destruct (fault s =? 0); destruct s; reflexivity. Qed.
+Lemma fold_free_sock_frameS l : forall s, frameS s (fold_left free_sock l s).
+Proof. induction l as [|k l IH]; intros s; [apply frameS_refl|]. cbn [fold_left]. eapply frameS_trans; [apply free_sock_frameS|apply IH]. Qed.
+
+Theorem teardown_empties s :
+  let s' := teardown s in
+  lcands s' = [] /\ rcands s' = [] /\ sources s' = [] /\ ichecks s' = [] /\ clist s' = [] /\ discs s' = [] /\
+  sel_l s' = None /\ sel_r s' = None /\ turn_cand s' = None.
+Proof.
+  cbv zeta. unfold teardown, component_close.
+  set (s0 := discovery_prune_stream (conn_check_prune_stream s)).
+  assert (E0 : clist s0 = [] /\ discs s0 = []) by (unfold s0; cbn; auto). clearbody s0. destruct E0 as [Ec Ed].
+  set (s1 := match turn_cand s0 with Some c => set_turn_cand (free_cand s0 c) None | None => s0 end).
+  assert (E1 : turn_cand s1 = None /\ clist s1 = [] /\ discs s1 = []).
+  { unfold s1. destruct (turn_cand s0) eqn:E; [|auto]. cbn. unfold free_cand, flt. destruct (find_cand (cands s0) z); [cbn; auto|]. destruct (fault s0 =? 0); cbn; auto. }
+  clearbody s1. destruct E1 as (Et & Ec1 & Ed1).
+  assert (Hfc : forall l t, turn_cand (fold_left free_cand l t) = turn_cand t /\ clist (fold_left free_cand l t) = clist t /\ discs (fold_left free_cand l t) = discs t /\
+                            lcands (fold_left free_cand l t) = lcands t /\ rcands (fold_left free_cand l t) = rcands t).
+  { induction l as [|c l IH]; intros t; [auto|]. cbn [fold_left]. destruct (IH (free_cand t c)) as (A & B & C & D & E). rewrite A, B, C, D, E.
+    unfold free_cand, flt. destruct (find_cand (cands t) c); [cbn; auto|]. destruct (fault t =? 0); cbn; auto. }
+  set (s2 := set_lcands (fold_left free_cand (lcands s1) s1) []).
+  assert (E2 : turn_cand s2 = None /\ clist s2 = [] /\ discs s2 = [] /\ lcands s2 = []).
+  { unfold s2. cbn. destruct (Hfc (lcands s1) s1) as (A & B & C & _). rewrite A, B, C. auto. }
+  clearbody s2. destruct E2 as (Et2 & Ec2 & Ed2 & El2).
+  set (s3 := set_rcands (fold_left free_cand (rcands s2) s2) []).
+  assert (E3 : turn_cand s3 = None /\ clist s3 = [] /\ discs s3 = [] /\ lcands s3 = [] /\ rcands s3 = []).
+  { unfold s3. cbn. destruct (Hfc (rcands s2) s2) as (A & B & C & D & _). rewrite A, B, C, D. auto. }
+  clearbody s3. destruct E3 as (Et3 & Ec3 & Ed3 & El3 & Er3).
+  set (s4 := fold_left refresh_prune_socket (sources s3) s3).
+  destruct (frameR_fields _ _ (fold_refresh_prune_frameR (sources s3) s3)) as (_ & _ & _ & A4 & B4 & _ & _ & _ & _ & _ & C4 & D4 & E4 & _).
+  fold s4 in A4, B4, C4, D4, E4. clearbody s4.
+  unfold free_socket_sources. cbn.
+  pose proof (fold_free_sock_frameS (sources s4) s4) as F5. set (s5 := fold_left free_sock (sources s4) s4) in *. clearbody s5. rewrite F5. cbn.
+  rewrite A4, B4, C4, D4, E4. auto 10.
+Qed.
+
+(** ---- states outside the hypotheses: genuine defects of libnice (each reproduced on the real code by harness/own_h.c under ASan) *)
+Definition mk_sock i b := {| sk_id := i; sk_base := b |}.
+Definition mk_cand i k r := {| c_id := i; c_sock := k; c_relay := r |}.
+Definition mk_pair i l r k st n v pr := {| p_id := i; p_comp := 1; p_local := l; p_remote := r; p_sock := k; p_state := st; p_nominated := n; p_valid := v; p_prio := pr |}.
+Definition base_state : state :=
+  {| socks := []; cands := []; pairs := []; refrs := []; lcands := []; rcands := []; sources := []; ichecks := []; sel_l := None; sel_r := None; sel_prio := 0;
+     turn_cand := None; clist := []; trig := []; discs := []; rlist := []; pruning := []; cstate := 0; cid := 1; fault := 0 |}.
+
+(** w1: a relayed candidate (11) and a local peer-reflexive candidate (12, discovered through the relay) share TURN socket 1, layered on
+    socket 0.  Removing socket 0 frees socket 1 with candidate 11, then calls nice_socket_is_based_on on the freed socket for 12. *)
+Definition w1 : state :=
+  set_lcands (set_sources (set_cands (set_socks base_state [mk_sock 0 None; mk_sock 1 (Some 0)])
+    [mk_cand 10 (Some 0) false; mk_cand 11 (Some 1) true; mk_cand 12 (Some 1) false]) [0; 1]) [10; 11; 12].
+Theorem remove_socket_shared_turn_socket_refuted : fault w1 = 0 /\ fault (remove_socket w1 0) = 1.
+Proof. vm_compute. auto. Qed.
+
+(** w2: a remote peer-reflexive candidate (20) learnt on TURN socket 1 keeps its sockptr after socket 0 (and with it socket 1) is gone *)
+Definition w2 : state :=
+  set_rcands (set_lcands (set_sources (set_cands (set_socks base_state [mk_sock 0 None; mk_sock 1 (Some 0)])
+    [mk_cand 10 (Some 0) false; mk_cand 11 (Some 1) true; mk_cand 20 (Some 1) false]) [0; 1]) [10; 11]) [20].
+Theorem remove_socket_prflx_on_turn_socket_refuted :
+  let s' := remove_socket w2 0 in
+  fault s' = 0 /\ exists c, In c (cands s') /\ In (c_id c) (rcands s') /\ c_sock c = Some 1 /\ ~ live_sock s' 1.
+Proof. cbv zeta. split; [vm_compute; reflexivity|]. exists (mk_cand 20 (Some 1) false). vm_compute. intuition discriminate. Qed.
+
+(** w3: the relay candidate parked in cmp->turn_candidate (9, TURN socket 2 on socket 0) is not on local_candidates: removing socket 0
+    leaves socket 2 attached with a freed base socket under it (and the selected pair still sends through it) *)
+Definition w3 : state :=
+  set_sel_prio (set_sel_r (set_sel_l (set_turn_cand (set_rcands (set_lcands (set_sources (set_cands (set_socks base_state
+    [mk_sock 0 None; mk_sock 1 None; mk_sock 2 (Some 0)])
+    [mk_cand 10 (Some 0) false; mk_cand 11 (Some 1) false; mk_cand 20 None false; mk_cand 9 (Some 2) true]) [0; 1; 2]) [10; 11]) [20]) (Some 9)) (Some 9)) (Some 20)) 50.
+Theorem remove_socket_turn_candidate_refuted :
+  let s' := remove_socket w3 0 in
+  fault s' = 0 /\ turn_cand s' = Some 9 /\ sel_l s' = Some 9 /\ In (mk_cand 9 (Some 2) true) (cands s') /\ In (mk_sock 2 (Some 0)) (socks s') /\ In 2 (sources s') /\ ~ live_sock s' 0.
+Proof. cbv zeta. vm_compute. intuition discriminate. Qed.
+
+(** w4: the selected pair (12,20) runs over a relayed candidate on TURN socket 2 (on socket 0); another nominated valid pair (11,21) lives on
+    socket 1.  Removing socket 0 clears the selected pair (priority 0), then prunes socket 2: a pair failed and a nominated pair is left, so
+    priv_prune_pending_checks runs and its g_assert (priority > 0) aborts the process. *)
+Definition w4 : state :=
+  set_cstate (set_sel_prio (set_sel_r (set_sel_l (set_clist (set_pairs (set_rcands (set_lcands (set_sources (set_cands (set_socks base_state
+    [mk_sock 0 None; mk_sock 1 None; mk_sock 2 (Some 0)])
+    [mk_cand 10 (Some 0) false; mk_cand 11 (Some 1) false; mk_cand 12 (Some 2) true; mk_cand 20 None false; mk_cand 21 None false]) [0; 1; 2]) [10; 11; 12]) [20; 21])
+    [mk_pair 30 12 20 2 3 true true 100; mk_pair 31 11 21 1 3 true true 90]) [30; 31]) (Some 12)) (Some 20)) 100) 4.
+Theorem remove_socket_assert_refuted : fault w4 = 0 /\ fault (remove_socket w4 0) = 2.
+Proof. vm_compute. auto. Qed.
+
+(** a concrete state inside the hypotheses (two plain sockets, a TURN socket on socket 0 with its relayed candidate, a peer-reflexive remote
+    learnt on socket 0, pairs on every socket, the selected pair on the socket that goes): socket 0 goes, with everything on it *)
+Definition ex_state : state :=
+  set_cstate (set_sel_prio (set_sel_r (set_sel_l (set_rlist (set_refrs (set_discs (set_ichecks (set_trig (set_clist (set_pairs (set_rcands (set_lcands (set_sources (set_cands (set_socks base_state
+    [mk_sock 0 None; mk_sock 1 None; mk_sock 2 (Some 0)])
+    [mk_cand 10 (Some 0) false; mk_cand 11 (Some 1) false; mk_cand 12 (Some 2) true; mk_cand 20 None false; mk_cand 21 (Some 0) false]) [0; 1; 2]) [10; 11; 12]) [20; 21])
+    [mk_pair 30 10 20 0 3 true true 100; mk_pair 31 11 20 1 3 false true 90; mk_pair 32 12 20 2 1 false false 50; mk_pair 33 11 21 1 5 false false 40]) [30; 31; 32; 33]) [32])
+    [{| i_id := 40; i_sock := 0 |}; {| i_id := 41; i_sock := 1 |}; {| i_id := 42; i_sock := 2 |}]) [{| d_id := 50; d_sock := 0 |}; {| d_id := 51; d_sock := 2 |}; {| d_id := 52; d_sock := 1 |}])
+    [{| r_id := 60; r_sock := 0; r_cand := 12 |}]) [60]) (Some 10)) (Some 20)) 100) 4.
+Example remove_socket_example :
+  let s' := remove_socket ex_state 0 in
+  fault s' = 0 /\ map sk_id (socks s') = [1] /\ map c_id (cands s') = [11; 20] /\ lcands s' = [11] /\ rcands s' = [20] /\ sources s' = [1] /\
+  clist s' = [31] /\ map p_id (pairs s') = [31] /\ trig s' = [] /\ map i_id (ichecks s') = [41] /\ map d_id (discs s') = [52] /\ refrs s' = [] /\ rlist s' = [] /\
+  sel_l s' = None /\ sel_r s' = None /\ cstate s' = 5 /\ verdict s' = 0.
+Proof. vm_compute. repeat split. Qed.
+
+(** ---- one turn of the loop over the local candidates *)
+Lemma find_cand_filter h c j : j <> c -> find_cand (filter (fun x => negb (c_id x =? c)) h) j = find_cand h j.
+Proof.
+  intros Hj. unfold find_cand. induction h as [|a h IH]; [reflexivity|]. cbn. destruct (c_id a =? c) eqn:E; cbn.
+  - apply Z.eqb_eq in E. destruct (c_id a =? j) eqn:E2; [apply Z.eqb_eq in E2; congruence|exact IH].
+  - destruct (c_id a =? j); [reflexivity|exact IH].
+Qed.
+Lemma opt_is_some k : opt_is (Some k) k = true. Proof. cbn. apply Z.eqb_refl. Qed.
+Lemma opt_is_true o k : opt_is o k = true -> o = Some k.
+Proof. destruct o; cbn; [|discriminate]. intros H. apply Z.eqb_eq in H. congruence. Qed.
+Lemma touches_false_facts s p sk : pair_touches s p sk = Some false ->
+  (forall lc, find_cand (cands s) (p_local p) = Some lc -> c_sock lc <> Some sk) /\
+  (forall rc, find_cand (cands s) (p_remote p) = Some rc -> c_sock rc <> Some sk) /\ p_sock p <> sk.
+Proof.
+  unfold pair_touches. destruct (find_cand (cands s) (p_local p)) as [lc|]; [|discriminate]. destruct (opt_is (c_sock lc) sk) eqn:E1; [discriminate|].
+  destruct (find_cand (cands s) (p_remote p)) as [rc|]; [|discriminate]. intros H. injection H as H. apply orb_false_elim in H. destruct H as [E2 E3].
+  repeat split.
+  - intros x Hx. injection Hx as <-. intros E. rewrite E, opt_is_some in E1. discriminate.
+  - intros x Hx. injection Hx as <-. intros E. rewrite E, opt_is_some in E2. discriminate.
+  - apply Z.eqb_neq. exact E3.
+Qed.
+
+Definition AS_loop (s : state) (ns : Z) : Prop :=
+  no_nominated s \/
+  (sel_prio s > 0 /\ forall c cd k, sel_l s = Some c -> In cd (cands s) -> c_id cd = c -> c_sock cd = Some k -> ~ on_ns s ns k) \/
+  (forall k, In k (socks s) -> sk_base k <> Some ns).
+Definition Inv (s : state) (ns : Z) : Prop :=
+  WF s /\ Pre s ns /\ touches_none s ns /\ AS_loop s ns /\ (forall r, In r (refrs s) -> r_sock r <> ns) /\ (forall d, In d (discs s) -> d_sock d <> ns).
+
+(** no pair refers to a candidate whose socket no pair touches *)
+Lemma untouched_cand s ns sk cd : WF s -> Pre s ns -> touches_none s sk -> In cd (cands s) -> c_sock cd = Some sk -> In (c_id cd) (lcands s) \/ In (c_id cd) (rcands s) ->
+  forall p, In p (pairs s) -> p_local p <> c_id cd /\ p_remote p <> c_id cd.
+Proof.
+  intros W P T Hcd Hk Hl p Hp.
+  assert (Hf : find_cand (cands s) (c_id cd) = Some cd) by (apply (find_in_nodup c_id (cands s) cd (wf_nd_cands s W) Hcd)).
+  destruct (Z.eq_dec (p_comp p) (cid s)) as [Ec|Ec].
+  - destruct (touches_false_facts s p sk (T p Hp (pre_pair_owned s ns P p Hp) Ec)) as (A & B & _).
+    split; intros E; [apply (A cd)|apply (B cd)]; try assumption; rewrite E; exact Hf.
+  - destruct (pre_foreign s ns P p Hp Ec) as (A & B & C & D & _). split; intros E; rewrite E in *; tauto.
+Qed.
+
+(** ---- refresh_prune_candidate: every refresh of the candidate that is on agent->refresh_list goes, the others stay, WF is kept *)
+Lemma refresh_prune_candidate_spec s c : WF s -> fault s = 0 ->
+  WF (refresh_prune_candidate s c) /\ fault (refresh_prune_candidate s c) = 0 /\ frameR s (refresh_prune_candidate s c) /\
+  (forall x, In x (refrs (refresh_prune_candidate s c)) -> In x (refrs s) /\ (In (r_id x) (rlist s) -> r_cand x <> c)) /\
+  (forall x, In x (refrs s) -> r_cand x <> c -> In x (refrs (refresh_prune_candidate s c))) /\
+  (forall i, In i (rlist s) -> live_refr (refresh_prune_candidate s c) i -> In i (rlist (refresh_prune_candidate s c))).
+Proof.
+  intros W Hf. unfold refresh_prune_candidate. rewrite refresh_pass_eq.
+  destruct (refresh_pass_inv (fun rf => r_cand rf =? c) (rlist s) s (wf_nd_rlist s W) (wf_rlist s W) (wf_nd_refrs s W) (wf_nd_rlist s W) (wf_nd_pruning s W) Hf)
+    as (I1 & I2 & I3 & I4 & I5 & I6 & I7 & I8 & I9 & I10 & I11 & I12 & I13 & I14).
+  split; [|split; [exact I2|split; [exact I1|split; [|split; [|exact I13]]]]].
+  - apply (WF_frameR s); auto.
+    + intros r Hr. apply I11; [exact Hr|]. apply (wf_rlist s W). apply I9. exact Hr.
+    + intros r Hr. apply I12; [exact Hr|]. apply (wf_pruning s W). apply I10. exact Hr.
+  - intros x Hx. split; [apply I3; exact Hx|]. intros Hl E. specialize (I5 x Hx Hl). cbn in I5. rewrite E, Z.eqb_refl in I5. discriminate.
+  - intros x Hx Hn. apply I4; [exact Hx|]. intros [_ E]. cbn in E. apply Z.eqb_eq in E. contradiction.
+Qed.
+
+(** whatever the state: after nice_component_remove_socket no incoming check received on the socket is left *)
+Lemma remove_socket_ichecks s ns i : In i (ichecks (remove_socket s ns)) -> i_sock i <> ns.
+Proof.
+  unfold remove_socket. set (s5 := fold_left (remove_socket_remote ns) _ _). clearbody s5. unfold detach_socket. cbn [sources set_ichecks].
+  assert (K : In i (filter (fun j => negb (i_sock j =? ns)) (ichecks s5)) -> i_sock i <> ns).
+  { intros H. apply filter_In in H. destruct H as [_ H]. intros E. rewrite E, Z.eqb_refl in H. discriminate. }
+  destruct (memb ns (sources s5)); [|exact K]. unfold free_sock, flt. cbn [socks set_sources set_ichecks].
+  destruct (find_sock (socks s5) ns); [exact K|]. cbn [fault set_sources set_ichecks]. destruct (fault s5 =? 0); exact K.
+Qed.
